@@ -3,16 +3,16 @@ TB = "Trusted: python ast, sympy normal forms, the numpy transfer tables (oasa/n
 
 claim(
     "C01",
-    "Static: decides, for every component, option valuation and mesh size, the structural half of derivative correctness (no missing, undeclared, never-stored or stale partial blocks; branch agreement between compute and compute_partials). Does not decide tensor Jacobian values.",
+    "Static: decides, for every component, option valuation and mesh size, the structural half of derivative correctness (no missing, undeclared, never-stored or stale partial blocks; constant Jacobians only for affine dependence; branch agreement between compute and compute_partials; sibling arms of one setup() re-index rows and columns together) and, for the scalar / element-wise components, that each stored partial is the derivative of the expression compute() evaluates (identity of extracted expressions). Does not decide the values or non-zero positions of hand-indexed tensor Jacobians (P5 / P8 of the design were not built).",
     TB,
-    "abstract interpretation (dependency / alias domains) over compute vs declare_partials / compute_partials, per option valuation",
+    "abstract interpretation (dependency / alias / affine domains) over compute vs declare_partials / compute_partials per option valuation; source-level expression extraction and differentiation (sympy) for the element-wise components",
     "DESIGN.md section 2 C01",
 )
 na("C14", "purely numerical post-conditions of the mesh generators (monotone coordinates, extents, node-for-node equality); no abstract domain in reach bounds them without evaluating the generators")
 
 claim(
     "C03",
-    "Static: decides, per component method and option valuation, that every read-modify-write of persistent storage (outputs, residuals, partials, self.*) is preceded in the same call by a plain store covering the region (typestate), and that no code writes state outside the instance (module globals, class attributes, mutable defaults). Does not decide solver-level hysteresis.",
+    "Static: decides, per component method and option valuation, that every read-modify-write of persistent storage (outputs, residuals, partials, self.*) is preceded in the same call by a plain store covering the region (typestate), that no branch of an evaluation method tests instance state written at run time (memo flags, cached factors), that no code writes state outside the instance (module globals, class attributes, mutable defaults), and that in run-once groups every consumer is added after its producers. Does not decide solver-level hysteresis.",
     TB,
     "typestate (STALE->FRESH per storage cell) over the abstract interpreter's store events with symbolic region coverage; effect analysis for writes outside the instance",
     "DESIGN.md section 2 C03",
@@ -20,7 +20,7 @@ claim(
 
 claim(
     "C19",
-    "Static: decides the index bookkeeping behind composition of surfaces for all surface lists and mesh sizes: running offsets start at 0, advance by exactly the width of the block they address (polynomial identity), blocks tile axes of length sum-of-advances, and per-surface values do not leak from one loop into a later loop. Does not decide permutation / splitting invariance of numerical results.",
+    "Static: decides the index bookkeeping behind composition of surfaces for all surface lists and mesh sizes: running offsets start at 0, advance by exactly the width of the block they address (polynomial identity), blocks tile axes of length sum-of-advances, per-surface values do not leak from one loop into a later loop or into a scalar attribute used for every surface, totals over the surface list are accumulated commutatively and never overwritten, and every surface key the aerodynamic subsystems read is copied for multi-section surfaces. Does not decide permutation / splitting invariance of numerical results.",
     TB,
     "symbolic prefix-sum analysis of running offsets (loop-carried symbolic integers, uninterpreted linear SUM over the list) and def-use analysis of per-element values across loops",
     "DESIGN.md section 2 C19",
@@ -28,21 +28,21 @@ claim(
 
 claim(
     "C02",
-    "Static: decides the structural preconditions of forward/reverse agreement and solver independence: solve_linear mode discipline (transposed factor in rev unless matrix symmetry is structurally evidenced), factor freshness, adjoint duality of the matrix-free (de)multiplexers, and a capable linear solver on every cyclic group for every option valuation. Does not decide numerical equality of totals.",
+    "Static: decides the structural preconditions of forward/reverse agreement and solver independence: solve_linear mode discipline (transposed factor in rev unless matrix symmetry is structurally evidenced), factor freshness, adjoint duality of the matrix-free (de)multiplexers, a capable linear solver on every cyclic group for every option valuation, and complex-step safety of every value that depends on an input differentiated with method=cs. Does not decide numerical equality of totals.",
     TB,
     "event-log queries over the abstract interpreter (mode-specialised runs of solve_linear / compute_jacvec_product), group connection-graph cycle analysis",
     "DESIGN.md section 2 C02",
 )
 claim(
     "C08",
-    "Static: decides the three structural mechanisms of the method of images: rejection of ground effect without symmetry for every valuation, image strength -1 and the real/image split at nx in compute and compute_partials, and the stacking order in VortexMesh. Does not decide the far-field limit or numerical equivalence with an explicit image system.",
+    "Static: decides the three structural mechanisms of the method of images: rejection of ground effect without symmetry for every valuation, image strength -1 and the real/image split at nx in compute and compute_partials, the stacking order in VortexMesh, that the guard keys (groundplane, symmetry) are never rewritten and are copied for multi-section surfaces, and that the image construction is dimensionally homogeneous (the height enters as a length). Does not decide the far-field limit or numerical equivalence with an explicit image system.",
     TB,
     "valuation enumeration of VortexMesh.setup (must-raise), value extraction of the strength list and split slices from the abstract interpreter",
     "DESIGN.md section 2 C08",
 )
 claim(
     "C10",
-    "Static: decides symmetry of the element tables, rigid-body null space and cantilever flexibility of the bending blocks (closed form, sympy), that both stiffness transformations are congruences, that assembly keeps symmetry and that exactly the six DOFs of the documented root node are clamped. Does not decide displacement values.",
+    "Static: decides symmetry of the element tables, rigid-body null space and cantilever flexibility of the bending blocks (closed form, sympy), that both stiffness transformations are congruences, that assembly keeps symmetry that exactly the six DOFs of the documented root node are clamped (index a function of the node count only), that the tiny-load threshold is an absolute constant, and that Disp reports the solution unmodified. Does not decide displacement values.",
     TB,
     "constant folding of module tables + sympy identities; AST pattern analysis of einsum congruences and the sparse assembly; symbolic clamp index per option valuation",
     "DESIGN.md section 2 C10",
@@ -56,7 +56,7 @@ claim(
 )
 claim(
     "C20",
-    "Static: decides that each documented invalid set-up reaches a raise on every path (must-pass-through), that the entry groups validate dictionary keys and the validators warn, that no store / in-place operation reaches an alias of a user array (surface / options values, helper arguments), and that there is no unseeded random source or shared mutable state. Does not decide finiteness of outputs.",
+    "Static: decides that each documented invalid set-up reaches a raise on every path (must-pass-through), that the entry groups validate dictionary keys and the validators warn, that no store / in-place operation reaches an alias of a user array (surface / options values, helper arguments), that no key of a user dictionary is assigned, that numeric defaults are taken by key presence (an admissible 0 is kept), that there is no unseeded random source or shared mutable state, and that the viscous-drag formula is finite at both ends of the documented laminar-fraction range. Does not decide finiteness of outputs in general.",
     TB,
     "must-pass-through checks on the AST, alias/effect analysis over the abstract interpreter's store events",
     "DESIGN.md section 2 C20",
